@@ -285,12 +285,6 @@ func spec_cand(l *LALR1, tr Transistor, a *Action, sy int) bool {
 //@ order_only
 //@ loop 0: order_assumed the relation list is used as a set of pairs by Digraph
 
-// each row cell is written once, at its own index
-//@ func (*LALR1).GenTable
-//@ props C14
-//@ order_only
-//@ loop 4: order_independent
-
 // ---------------------------------------------------------------------------------------------
 // C03 / C02: the DeRemer-Pennello relations over the transition list.
 
@@ -388,3 +382,46 @@ func spec_walk(l *LALR1, q int, r int, k int) int { panic("spec") }
 //@ loop 0: invariant forall n int :: 0 <= n && n < len(res) ==> res[n].x == tr && includesOK(lalr, res[n].x, res[n].y)
 //@ loop 1: invariant forall n int :: 0 <= n && n < len(res) ==> res[n].x == tr && includesOK(lalr, res[n].x, res[n].y)
 //@ loop 2: invariant forall n int :: 0 <= n && n < len(res) ==> res[n].x == tr && includesOK(lalr, res[n].x, res[n].y)
+
+// ---------------------------------------------------------------------------------------------
+// C01 / C06 / C02: the dense table. Encoding (TC over the transition list):
+//   a cell holds the error code, or the accept code (only for a reduction by rule 0 under one of its lookaheads),
+//   or the target of a shift/goto transition of that state on that symbol, or -r for a reduction by rule r >= 1 of
+//   that state under one of its lookaheads. No cell is 0. Column 0 (the augmented start symbol) is always the error code.
+
+//@ def cellOK(l *LALR1, q int, a int, v int) = v == len(l.G.LR0.LR0Closure) + 100 ||
+//@     (exists t int :: 0 <= t && t < len(l.trans) && l.trans[t].q == q &&
+//@         ((l.trans[t].sym_or_rule&CheckMask == 0 && int(l.trans[t].sym_or_rule) == a && v == l.trans[t].to) ||
+//@          (l.trans[t].sym_or_rule&CheckMask != 0 && inLA(l, l.trans[t], a) &&
+//@             ((int(l.trans[t].sym_or_rule&Mask) != 0 && v == -int(l.trans[t].sym_or_rule&Mask)) || (int(l.trans[t].sym_or_rule&Mask) == 0 && v == len(l.G.LR0.LR0Closure) + 200)))))
+
+//@ def wfGen(l *LALR1) = wfTrans(l) && l.G.LR0 != nil &&
+//@     (forall t int :: 0 <= t && t < len(l.trans) ==>
+//@         (l.trans[t].sym_or_rule&CheckMask == 0 ==> l.trans[t].to != 0 && int(l.trans[t].sym_or_rule) != 0) &&
+//@         (l.trans[t].sym_or_rule&CheckMask != 0 ==> (forall k int :: 0 <= k && k < len(l.LookAheadSet[l.trans[t].Index]) ==>
+//@             1 <= l.LookAheadSet[l.trans[t].Index][k] && l.LookAheadSet[l.trans[t].Index][k] < len(l.G.Symbols))))
+
+//@ func (*LALR1).GenTable
+//@ props C01 C06 C02
+//@ results tab, err
+//@ requires wfGen(lalr) && !utils.DebugFlags
+//@ ensures [C01,C06] err == nil && len(tab) == len(lalr.G.LR0.LR0Closure)
+//@ ensures [C01,C06] forall q int :: 0 <= q && q < len(tab) ==> len(tab[q]) == len(lalr.G.Symbols)
+//@ ensures [C01,C06] forall q, a int :: 0 <= q && q < len(tab) && 0 <= a && a < len(lalr.G.Symbols) ==> cellOK(lalr, q, a, tab[q][a]) && tab[q][a] != 0
+//@ ensures [C06] forall q int :: 0 <= q && q < len(tab) && 0 < len(lalr.G.Symbols) ==> tab[q][0] == len(lalr.G.LR0.LR0Closure) + 100
+//@ loop 0: invariant forall q2, k int :: has(trans_set, q2) && 0 <= k && k < len(trans_set[q2]) ==>
+//@     (exists t int :: 0 <= t && t < len(lalr.trans) && lalr.trans[t] == trans_set[q2][k] && lalr.trans[t].q == q2)
+//@ loop 1: invariant forall q2, k int :: has(trans_set, q2) && 0 <= k && k < len(trans_set[q2]) ==>
+//@     (exists t int :: 0 <= t && t < len(lalr.trans) && lalr.trans[t] == trans_set[q2][k] && lalr.trans[t].q == q2)
+//@ loop 2: invariant 0 <= q && q <= len(lalr.G.LR0.LR0Closure) && len(tableGen) == q
+//@ loop 2: invariant forall q2 int :: 0 <= q2 && q2 < q ==> len(tableGen[q2]) == len(lalr.G.Symbols)
+//@ loop 2: invariant forall q2, a int :: 0 <= q2 && q2 < q && 0 <= a && a < len(lalr.G.Symbols) ==> cellOK(lalr, q2, a, tableGen[q2][a]) && tableGen[q2][a] != 0
+//@ loop 2: invariant forall q2 int :: 0 <= q2 && q2 < q && 0 < len(lalr.G.Symbols) ==> tableGen[q2][0] == len(lalr.G.LR0.LR0Closure) + 100
+//@ loop 2: decreases len(lalr.G.LR0.LR0Closure) - q
+//@ loop 3: invariant 0 <= i && i <= len(row) && len(row) == len(lalr.G.Symbols)
+//@ loop 3: invariant forall a int :: 0 <= a && a < i ==> row[a] == len(lalr.G.LR0.LR0Closure) + 100
+//@ loop 3: decreases len(row) - i
+//@ loop 4: order_independent
+//@ loop 4: invariant len(row) == len(lalr.G.Symbols)
+//@ loop 4: invariant forall a int :: 0 <= a && a < len(row) ==> cellOK(lalr, q, a, row[a]) && row[a] != 0
+//@ loop 4: invariant 0 < len(row) ==> row[0] == len(lalr.G.LR0.LR0Closure) + 100
